@@ -35,4 +35,42 @@ theorem mem_updateWhere {α} (p : α → Bool) (f : α → α) (l : List α) (y 
     refine ⟨x, hx, ?_⟩
     rcases h with ⟨hp, rfl⟩ | ⟨hp, rfl⟩ <;> simp [hp]
 
+/-! ### pointwise relation between two lists (core has no `Forall₂`) -/
+
+inductive Forall2 {α β : Type} (R : α → β → Prop) : List α → List β → Prop
+  | nil : Forall2 R [] []
+  | cons {a b l1 l2} : R a b → Forall2 R l1 l2 → Forall2 R (a :: l1) (b :: l2)
+
+theorem forall2_refl {α} {R : α → α → Prop} (hr : ∀ a, R a a) : ∀ l : List α, Forall2 R l l
+  | [] => .nil
+  | a :: l => .cons (hr a) (forall2_refl hr l)
+
+theorem forall2_trans {α} {R : α → α → Prop} (ht : ∀ a b c, R a b → R b c → R a c) :
+    ∀ {l1 l2 l3 : List α}, Forall2 R l1 l2 → Forall2 R l2 l3 → Forall2 R l1 l3
+  | [], _, _, .nil, .nil => .nil
+  | _ :: _, _, _, .cons h1 t1, .cons h2 t2 => .cons (ht _ _ _ h1 h2) (forall2_trans ht t1 t2)
+
+theorem forall2_length {α β} {R : α → β → Prop} : ∀ {l1 : List α} {l2 : List β}, Forall2 R l1 l2 → l1.length = l2.length
+  | [], [], .nil => rfl
+  | _ :: _, _ :: _, .cons _ t => by simp [forall2_length t]
+
+theorem forall2_split {α} {R : α → α → Prop} :
+    ∀ {l1 : List α} {m : List α} {l2 : List α}, Forall2 R (l1 ++ l2) m →
+      ∃ m1 m2, m = m1 ++ m2 ∧ Forall2 R l1 m1 ∧ Forall2 R l2 m2
+  | [], m, l2, h => ⟨[], m, rfl, .nil, h⟩
+  | a :: l1, m, l2, h => by
+    cases h with
+    | cons hab ht =>
+      obtain ⟨m1, m2, rfl, h1, h2⟩ := forall2_split ht
+      exact ⟨_ :: m1, m2, rfl, .cons hab h1, h2⟩
+
+theorem forall2_get {α β} {R : α → β → Prop} : ∀ {l1 : List α} {l2 : List β}, Forall2 R l1 l2 →
+    ∀ (i : Nat) (a : α), l1[i]? = some a → ∃ b, l2[i]? = some b ∧ R a b
+  | _, _, .nil, i, a, h => by simp at h
+  | _, _, .cons hab ht, 0, a, h => by simp at h; subst h; exact ⟨_, by simp, hab⟩
+  | _, _, .cons hab ht, i + 1, a, h => by
+    simp at h
+    obtain ⟨b, hb, hr⟩ := forall2_get ht i a h
+    exact ⟨b, by simpa using hb, hr⟩
+
 end Resonate
